@@ -563,6 +563,78 @@ func ruleHandlerDiscipline(c *Ctx, rule string) {
 		c.check(ok, rule, "template:error-handler-returns", L.pos(owner.Pos()), "every error handler ends the enclosing function with a return", where[owner].fnName())
 	}
 	c.floor(rule, "statements emitted by error handlers", m, 4)
+	// (c) a handler reports the error expression it was given: the parameter is never reassigned, the emitted return's last
+	// result is the parameter, and a handler that delegates passes the parameter on unchanged
+	nH := 0
+	checkHandler := func(ftype *ast.FuncType, body *ast.BlockStmt, name string, pos token.Pos) {
+		if ftype.Params == nil || len(ftype.Params.List) != 1 || len(ftype.Params.List[0].Names) != 1 {
+			return
+		}
+		param := p.TypesInfo.Defs[ftype.Params.List[0].Names[0]]
+		if param == nil {
+			return
+		}
+		nH++
+		bad := ""
+		ast.Inspect(body, func(n ast.Node) bool {
+			switch x := n.(type) {
+			case *ast.FuncLit:
+				return false
+			case *ast.AssignStmt:
+				for _, l := range x.Lhs {
+					if id, ok := l.(*ast.Ident); ok && p.TypesInfo.Uses[id] == param {
+						bad = "the error expression parameter is reassigned at " + L.pos(x.Pos())
+					}
+				}
+			case *ast.CompositeLit:
+				if astTypeName(p, x) == "ReturnStmt" {
+					for _, el := range x.Elts {
+						kv, ok := el.(*ast.KeyValueExpr)
+						if !ok {
+							continue
+						}
+						if k, ok := kv.Key.(*ast.Ident); !ok || k.Name != "Results" {
+							continue
+						}
+						if cl, ok := ast.Unparen(kv.Value).(*ast.CompositeLit); ok && len(cl.Elts) > 0 {
+							last := cl.Elts[len(cl.Elts)-1]
+							if id, ok := ast.Unparen(last).(*ast.Ident); !ok || p.TypesInfo.Uses[id] != param {
+								bad = "the emitted return reports " + exprString(last) + " instead of the error expression it was given (" + L.pos(x.Pos()) + ")"
+							}
+						}
+					}
+				}
+			case *ast.CallExpr:
+				if t := p.TypesInfo.TypeOf(x.Fun); t != nil && isHandlerSig(t) && len(x.Args) == 1 {
+					if id, ok := ast.Unparen(x.Args[0]).(*ast.Ident); !ok || p.TypesInfo.Uses[id] != param {
+						bad = "delegates to another handler with " + exprString(x.Args[0]) + " instead of its own error expression (" + L.pos(x.Pos()) + ")"
+					}
+				}
+			}
+			return true
+		})
+		c.check(bad == "", rule, "template:error-handler-reports-its-argument:"+name, L.pos(pos), "an error handler returns exactly the error expression it is given (a provider's error variable or ctx.Err())", bad)
+	}
+	for _, f := range p.Syntax {
+		for _, d := range f.Decls {
+			fd, ok := d.(*ast.FuncDecl)
+			if !ok || fd.Body == nil {
+				continue
+			}
+			if o := p.TypesInfo.Defs[fd.Name]; o != nil && isHandlerSig(o.Type()) {
+				checkHandler(fd.Type, fd.Body, "func", fd.Pos())
+			}
+			ast.Inspect(fd.Body, func(n ast.Node) bool {
+				if fl, ok := n.(*ast.FuncLit); ok {
+					if t := p.TypesInfo.TypeOf(fl); t != nil && isHandlerSig(t) {
+						checkHandler(fl.Type, fl.Body, "closure", fl.Pos())
+					}
+				}
+				return true
+			})
+		}
+	}
+	c.floor(rule, "error handler functions", nH, 3)
 }
 
 func isHandlerSig(t types.Type) bool {
@@ -1241,4 +1313,946 @@ func reachableWithin(from, to, stop *ssa.BasicBlock) bool {
 		stack = append(stack, x.Succs...)
 	}
 	return false
+}
+
+// ruleLaneIntegrity: a pool is emitted as one lane, whole and in pool order. The wait computation in Build decided "no wait"
+// for every same-pool edge on the premise that the producer runs earlier on the same thread; the emission must not break it.
+//
+//	(a) buildPoolStmtsSimple returns one statement per pool element, appended in range order to a single list
+//	(b) a chain's Statements are exactly one buildPoolStmtsSimple result and are never modified afterwards
+//	(c) the main-thread list only grows by spreading whole buildPoolStmtsSimple results
+func ruleLaneIntegrity(c *Ctx, rule string) {
+	L := c.L
+	bs := genFn(c, rule, "(*Graph).buildStmts")
+	bps := resolveRole(c, genPkg, "(*Graph).buildPoolStmtsSimple")
+	if bs == nil || bps == nil {
+		c.undecided(rule, "buildPoolStmtsSimple", "function not found")
+		return
+	}
+	c.seen(fnName(bps))
+	isPoolResult := func(v ssa.Value) bool {
+		v = resolve(v)
+		if ex, ok := v.(*ssa.Extract); ok && ex.Index == 0 {
+			if call, ok := ex.Tuple.(*ssa.Call); ok && call.Common().StaticCallee() == bps {
+				return true
+			}
+		}
+		return false
+	}
+	// (a)
+	var single func(v ssa.Value, seen map[ssa.Value]bool) (bool, string)
+	single = func(v ssa.Value, seen map[ssa.Value]bool) (bool, string) {
+		if seen[v] {
+			return true, ""
+		}
+		seen[v] = true
+		switch x := v.(type) {
+		case *ssa.MakeSlice:
+			return true, ""
+		case *ssa.Const:
+			return x.Value == nil, "constant"
+		case *ssa.Phi:
+			for _, e := range x.Edges {
+				if ok, why := single(e, seen); !ok {
+					return false, why
+				}
+			}
+			return true, ""
+		case *ssa.Call:
+			if bi, ok := x.Common().Value.(*ssa.Builtin); ok && bi.Name() == "append" {
+				if ok, why := single(x.Common().Args[0], seen); !ok {
+					return false, why
+				}
+				elems, ok := variadicElems(x.Common().Args[1])
+				if !ok || len(elems) != 1 {
+					return false, "append of " + describe(x.Common().Args[1]) + " (not one statement)"
+				}
+				al, ok := resolve(elems[0]).(*ssa.Alloc)
+				if !ok {
+					return false, "appended element is " + describe(elems[0])
+				}
+				if n, _ := isAstNodeType(al.Type()); n != "InjectorFieldAccessStmt" && n != "InjectorProviderCallStmt" {
+					return false, "appended element is a " + n
+				}
+				return true, ""
+			}
+			return false, "the list is produced by " + describe(x)
+		}
+		return false, "the list is " + describe(v)
+	}
+	nRet := 0
+	for _, r := range returnsOf(bps) {
+		if !returnsNilError(r) {
+			continue
+		}
+		nRet++
+		ok, why := single(resolve(r.Results[0]), map[ssa.Value]bool{})
+		c.check(ok, rule, fnName(bps)+":one-statement-per-element-in-pool-order", L.pos(r.Pos()),
+			"a pool's statements are its elements' statements in pool order (appended one by one to the returned list; nothing is grouped, moved or concatenated)", why)
+	}
+	c.floor(rule, "success returns of buildPoolStmtsSimple", nRet, 1)
+	// (b)
+	nSt := 0
+	for _, fn := range pkgFuncs(L, genPkg) {
+		for _, st := range storesToField([]*ssa.Function{fn}, "internal/kessoku.InjectorChainStmt.Statements") {
+			nSt++
+			c.check(fn == bs && isPoolResult(st.Val), rule, fnName(fn)+":chain-is-one-whole-pool", L.pos(st.Pos()),
+				"the statements of a goroutine are exactly the statements of one pool, set once", "stored value: "+describe(resolve(st.Val)))
+		}
+	}
+	c.floor(rule, "stores to InjectorChainStmt.Statements", nSt, 1)
+	// (c) the main-thread list
+	var spreads func(v ssa.Value, seen map[ssa.Value]bool) (bool, string)
+	spreads = func(v ssa.Value, seen map[ssa.Value]bool) (bool, string) {
+		if seen[v] {
+			return true, ""
+		}
+		seen[v] = true
+		if isPoolResult(v) {
+			return true, "" // the list starts as one whole pool
+		}
+		switch x := v.(type) {
+		case *ssa.MakeSlice:
+			return true, ""
+		case *ssa.Const:
+			return x.Value == nil, "constant"
+		case *ssa.Phi:
+			for _, e := range x.Edges {
+				if ok, why := spreads(e, seen); !ok {
+					return false, why
+				}
+			}
+			return true, ""
+		case *ssa.UnOp:
+			// a captured / address-taken accumulator
+			if al := allocOf(x.X); al != nil {
+				for _, st := range storesTo(al) {
+					if ok, why := spreads(st.Val, seen); !ok {
+						return false, why
+					}
+				}
+				return true, ""
+			}
+		case *ssa.Call:
+			if bi, ok := x.Common().Value.(*ssa.Builtin); ok && bi.Name() == "append" {
+				if ok, why := spreads(x.Common().Args[0], seen); !ok {
+					return false, why
+				}
+				if _, isLit := variadicElems(x.Common().Args[1]); isLit {
+					return false, "single statements are appended to the main-thread list"
+				}
+				if !isPoolResult(x.Common().Args[1]) {
+					return false, "appended: " + describe(resolve(x.Common().Args[1])) + " (not a whole pool)"
+				}
+				return true, ""
+			}
+		}
+		return false, "the main-thread list is " + describe(v)
+	}
+	nMain := 0
+	for _, r := range returnsOf(bs) {
+		if !returnsNilError(r) {
+			continue
+		}
+		if call, ok := resolve(r.Results[0]).(*ssa.Call); ok {
+			if bi, isB := call.Common().Value.(*ssa.Builtin); isB && bi.Name() == "append" && len(call.Common().Args) == 2 {
+				nMain++
+				ok, why := spreads(call.Common().Args[1], map[ssa.Value]bool{})
+				c.check(ok, rule, fnName(bs)+":main-thread-is-whole-pools", L.pos(r.Pos()), "the main thread's statements are whole pools, spread in the order they became ready", why)
+			}
+		}
+	}
+	c.floor(rule, "main-thread lists in buildStmts", nMain, 1)
+}
+
+// ruleOneNodePerProvider (C02.10): a provider is invoked once because it has one graph node: a node for provider P is
+// created only on the not-found edge of a lookup of P itself (the *ProviderSpec, not one of the types it provides - a
+// provider provides several types, e.g. the concrete type and the Bind interface) and is recorded under P.
+func ruleOneNodePerProvider(c *Ctx, rule string) {
+	L := c.L
+	ng := genFn(c, rule, "NewGraph")
+	if ng == nil {
+		return
+	}
+	n := 0
+	for _, fn := range withClosures(ng) {
+		for _, st := range storesToField([]*ssa.Function{fn}, "internal/kessoku.node.providerSpec") {
+			fa, ok := st.Addr.(*ssa.FieldAddr)
+			if !ok {
+				continue
+			}
+			al, ok := fa.X.(*ssa.Alloc)
+			if !ok {
+				continue
+			}
+			n++
+			// the root node: created once, outside every loop, and handed to graph.returnValue
+			if fn == ng && outermostLoopHeader(st.Block()) == nil {
+				isRoot := false
+				for _, r := range *al.Referrers() {
+					if s2, ok := r.(*ssa.Store); ok && s2.Val == ssa.Value(al) {
+						if fa2, ok := s2.Addr.(*ssa.FieldAddr); ok && fieldKey(fa2) == "internal/kessoku.returnVal.node" {
+							isRoot = true
+						}
+					}
+				}
+				if isRoot {
+					c.ok(rule, "the root node is created once, outside the walk", L.pos(st.Pos()))
+					continue
+				}
+			}
+			okGuard, okRecord := false, false
+			why := "no lookup keyed by the provider guards the creation"
+			for _, b := range fn.Blocks {
+				for _, in := range b.Instrs {
+					lk, ok := in.(*ssa.Lookup)
+					if !ok || !lk.CommaOk {
+						continue
+					}
+					mt, ok := lk.X.Type().Underlying().(*types.Map)
+					if !ok || !strings.HasSuffix(mt.Key().String(), "internal/kessoku.ProviderSpec") {
+						continue
+					}
+					if !sameValueOrigin(lk.Index, st.Val) {
+						why = "the guarding lookup is keyed by another provider than the one the node is created for"
+						continue
+					}
+					for _, t := range okTestsOf(lk) {
+						if (t.notFound == st.Block() || t.notFound.Dominates(st.Block())) && len(t.notFound.Preds) == 1 {
+							okGuard = true
+						}
+					}
+					// recorded under the same key in the same map
+					for _, b2 := range fn.Blocks {
+						for _, in2 := range b2.Instrs {
+							if mu, ok := in2.(*ssa.MapUpdate); ok && sameCell(mu.Map, lk.X) && sameValueOrigin(mu.Key, st.Val) && resolve(mu.Value) == ssa.Value(al) && st.Block().Dominates(b2) {
+								okRecord = true
+							}
+						}
+					}
+				}
+			}
+			c.check(okGuard && okRecord, rule, fnName(fn)+":one-node-per-provider", L.pos(st.Pos()),
+				"a provider node is created only when the provider itself (not one of its result types) has no node yet, and is recorded under the provider", fmt.Sprintf("guarded=%v recorded=%v; %s", okGuard, okRecord, why))
+		}
+	}
+	c.floor(rule, "provider node creations in NewGraph", n, 2)
+}
+
+// sameValueOrigin: two SSA values denote the same thing (same value after resolve, or loads of the same field of the same base).
+func sameValueOrigin(a, b ssa.Value) bool {
+	a, b = resolve(a), resolve(b)
+	if a == b {
+		return true
+	}
+	la, ok1 := a.(*ssa.UnOp)
+	lb, ok2 := b.(*ssa.UnOp)
+	if ok1 && ok2 && la.Op == token.MUL && lb.Op == token.MUL {
+		fa, ok1 := la.X.(*ssa.FieldAddr)
+		fb, ok2 := lb.X.(*ssa.FieldAddr)
+		if ok1 && ok2 && fa.Field == fb.Field {
+			return sameValueOrigin(fa.X, fb.X)
+		}
+	}
+	return false
+}
+
+// ruleReturnByRecordedIndex (C02.11): the injector returns the result of the root provider that was recorded for the
+// requested type when the graph was built (the supplier map's result index), not a result chosen again by another criterion.
+func ruleReturnByRecordedIndex(c *Ctx, rule string) {
+	L := c.L
+	build := genFn(c, rule, "(*Graph).Build")
+	ng := genFn(c, rule, "NewGraph")
+	if build == nil || ng == nil {
+		return
+	}
+	n := 0
+	for _, st := range storesToField(withClosures(build), "internal/kessoku.InjectorReturn.Param") {
+		n++
+		ok, why := false, "the returned parameter is "+describe(st.Val)
+		if ld, isL := st.Val.(*ssa.UnOp); isL && ld.Op == token.MUL {
+			if ia, isI := ld.X.(*ssa.IndexAddr); isI {
+				if idx, isL2 := ia.Index.(*ssa.UnOp); isL2 && idx.Op == token.MUL {
+					if fa, isF := idx.X.(*ssa.FieldAddr); isF && fieldKey(fa) == "internal/kessoku.returnVal.returnIndex" {
+						ok, why = true, "returnValues[g.returnValue.returnIndex]"
+					}
+				}
+				if !ok {
+					why = "the result index is " + describe(ia.Index) + ", not the index recorded in the graph"
+				}
+			}
+		}
+		c.check(ok, rule, "Build:returned-result-is-the-recorded-one", L.pos(st.Pos()), "the injector returns the root provider's result at the index recorded for the requested type", why)
+	}
+	c.floor(rule, "stores of the injector's returned parameter", n, 1)
+	m := 0
+	for _, st := range storesToField(withClosures(ng), "internal/kessoku.returnVal.returnIndex") {
+		m++
+		s := newSym(L, map[string]bool{})
+		s.maxD = 0
+		ts := s.eval(st.Val)
+		ok := true
+		for _, t := range ts {
+			if t != "0" && !strings.Contains(t, "fnProvider.returnIndex(") {
+				ok = false
+			}
+		}
+		c.check(ok, rule, "NewGraph:recorded-return-index", L.pos(st.Pos()), "the recorded index is the supplier map's result index for the requested type (0 for an argument)", strings.Join(ts, " | "))
+	}
+	c.floor(rule, "stores of the recorded return index", m, 2)
+}
+
+// ruleEveryStmtEmittedInPlace: generateStmts (and a chain's Stmt) emits each element of its statement list through that
+// element's own Stmt method, once, in list order: no element is skipped, and no statement is emitted from anywhere else
+// (a goroutine's statements are only ever emitted inside its eg.Go wrapper).
+func ruleEveryStmtEmittedInPlace(c *Ctx, rule string) {
+	L := c.L
+	for _, spec := range []struct{ fn, list string }{
+		{"generateStmts", "field:internal/kessoku.Injector.Stmts("},
+		{"(*InjectorChainStmt).Stmt", "field:internal/kessoku.InjectorChainStmt.Statements("},
+	} {
+		fn := genFn(c, rule, spec.fn)
+		if fn == nil {
+			continue
+		}
+		n := 0
+		for _, cs := range callsIn(fn) {
+			if !cs.common.IsInvoke() || cs.common.Method.Name() != "Stmt" || len(cs.common.Args) != 3 {
+				continue
+			}
+			n++
+			s := newSym(L, map[string]bool{})
+			s.maxD = 0
+			t := strings.Join(s.eval(cs.common.Value), "|")
+			okRecv := strings.HasPrefix(t, "index("+spec.list)
+			c.check(okRecv, rule, fnName(fn)+":emits-its-own-list", L.pos(cs.instr.Pos()), "the statement emitted is the element of the list being walked", t)
+			// no iteration without the emission
+			okDom := false
+			for _, h := range fn.Blocks {
+				if !strings.HasPrefix(h.Comment, "rangeindex.loop") && !strings.HasPrefix(h.Comment, "rangeiter.loop") && !strings.HasPrefix(h.Comment, "for.loop") {
+					continue
+				}
+				if !h.Dominates(cs.instr.Block()) {
+					continue
+				}
+				okDom = true
+				for _, p := range h.Preds {
+					if h.Dominates(p) && p != h && !(cs.instr.Block() == p || cs.instr.Block().Dominates(p)) {
+						okDom = false
+					}
+				}
+			}
+			c.check(okDom, rule, fnName(fn)+":no-statement-skipped", L.pos(cs.instr.Pos()), "every element of the list is emitted (the Stmt call dominates every back edge of its loop)", fmt.Sprintf("call in block %d", cs.instr.Block().Index))
+		}
+		c.check(n == 1, rule, fnName(fn)+":single-emission-site", L.pos(fn.Pos()), "statements are emitted at exactly one place, in list order", fmt.Sprintf("%d Stmt invocations", n))
+	}
+}
+
+// ruleSourcesSeededFirst: the topological iteration starts from ALL nodes without requirements (providers without inputs and
+// injector arguments alike), seeded before the first node is yielded. The pool heuristic gives an input-free Async provider
+// its own pool only while empty pools are left; that works because every source chooses before any dependant does.
+func ruleSourcesSeededFirst(c *Ctx, rule string) {
+	L := c.L
+	ts := genFn(c, rule, "(*Graph).topologicalSortIter")
+	if ts == nil {
+		return
+	}
+	var pushes []callSite
+	for _, cs := range callsIn(ts) {
+		if cal := cs.common.StaticCallee(); cal != nil && strings.HasSuffix(cal.Name(), "Push") && strings.Contains(cal.String(), "collection.Queue") {
+			pushes = append(pushes, cs)
+		}
+	}
+	c.check(len(pushes) == 1, rule, "topologicalSortIter:one-seed-queue", L.pos(ts.Pos()), "the sources are seeded into one work queue", fmt.Sprintf("%d Push sites before the iteration starts", len(pushes)))
+	for _, cs := range pushes {
+		hdr := outermostLoopHeader(cs.instr.Block())
+		var conds []string
+		ok := hdr != nil
+		for _, iff := range controllingIfs(cs.instr) {
+			if iff.Block() == hdr || !hdr.Dominates(iff.Block()) {
+				continue // the loop condition itself / code before the loop
+			}
+			s := newSym(L, map[string]bool{})
+			s.maxD = 0
+			t := strings.Join(s.eval(iff.Cond), "|")
+			conds = append(conds, t)
+			if !(strings.HasPrefix(t, "bin==(builtin len(lookup(field:internal/kessoku.Graph.reverseEdges(") && strings.HasSuffix(t, ", 0)") && iff.Block().Succs[0].Dominates(cs.instr.Block())) {
+				ok = false
+			}
+		}
+		c.check(ok && len(conds) == 1, rule, "topologicalSortIter:every-source-is-seeded", L.pos(cs.instr.Pos()),
+			"a node is seeded exactly when it has no requirements (no further distinction between arguments and input-free providers)", strings.Join(conds, " ; "))
+		// the seeded queue is the one the iteration consumes
+		okQ := false
+		if ld, isL := cs.arg(0).(*ssa.UnOp); isL {
+			for _, cl := range ts.AnonFuncs {
+				for _, fv := range cl.FreeVars {
+					if freeVarBinding(fv) == ld.X {
+						for _, r := range *fv.Referrers() {
+							if u, ok := r.(*ssa.UnOp); ok && u.Referrers() != nil {
+								for _, r2 := range *u.Referrers() {
+									if mc, ok := r2.(*ssa.MakeClosure); ok && strings.Contains(mc.Fn.Name(), "Iter") {
+										okQ = true
+									}
+								}
+							}
+						}
+					}
+				}
+			}
+		}
+		c.check(okQ, rule, "topologicalSortIter:seed-queue-is-iterated", L.pos(cs.instr.Pos()), "the iteration consumes the queue the sources were seeded into", "Push receiver cell is the cell whose Iter the closure ranges over")
+	}
+}
+
+// ruleSchedulerReadsAsyncFlag: every async/sync distinction findOptimalPool makes is the provider's IsAsync flag - the flag
+// buildStmts (goroutine or caller) and Build (context, waits) read. A private notion of "async" in the scheduler makes them disagree.
+func ruleSchedulerReadsAsyncFlag(c *Ctx, rule string) {
+	L := c.L
+	fn := genFn(c, rule, "(*Graph).findOptimalPool")
+	if fn == nil {
+		return
+	}
+	n := 0
+	for _, b := range fn.Blocks {
+		if len(b.Instrs) == 0 {
+			continue
+		}
+		iff, ok := b.Instrs[len(b.Instrs)-1].(*ssa.If)
+		if !ok {
+			continue
+		}
+		s := newSym(L, map[string]bool{})
+		s.maxD = 2 // a pure accessor helper is looked through
+		t := strings.Join(s.eval(iff.Cond), "|")
+		if strings.Contains(t, "field:internal/kessoku.ProviderSpec.IsAsync(") {
+			n++
+		}
+		if strings.Contains(t, genPkg+".") || strings.Contains(t, "(*"+genPkg) {
+			c.fail(rule, fnName(fn)+":scheduling-predicate", L.pos(iff.Cond.Pos()), "findOptimalPool decides through a predicate of its own instead of the provider's IsAsync flag (the flag buildStmts and Build read)", t)
+		}
+	}
+	c.floor(rule, "decisions on ProviderSpec.IsAsync in findOptimalPool", n, 4)
+}
+
+// ruleWaitCheckedWhenFallible: whenever the injector has an error result, the error of eg.Wait() is tested and returned; the
+// form that discards it is selected by "no error result" alone (goroutines also run fallible synchronous providers that the
+// scheduler placed behind an Async one, so no narrower predicate is sound).
+func ruleWaitCheckedWhenFallible(c *Ctx, rule string) {
+	L := c.L
+	fn := genFn(c, rule, "generateAsyncWaitStatements")
+	if fn == nil {
+		return
+	}
+	n := 0
+	for _, r := range returnsOf(fn) {
+		if len(r.Results) != 1 {
+			continue
+		}
+		// does the returned list contain an if statement (the checked form)?
+		checked := false
+		if elems, ok := variadicElems(resolve(r.Results[0])); ok {
+			for _, e := range elems {
+				if al, ok := resolve(e).(*ssa.Alloc); ok {
+					if nm, _ := isAstNodeType(al.Type()); nm == "IfStmt" {
+						checked = true
+					}
+				}
+			}
+		} else {
+			c.undecided(rule, "generateAsyncWaitStatements:returned-list", "the returned statement list is not a literal: "+describe(r.Results[0]))
+			continue
+		}
+		n++
+		if checked {
+			continue
+		}
+		rows, ids, err := truthTable(L, fn.Blocks[0], r, nil)
+		if err != "" {
+			c.undecided(rule, "generateAsyncWaitStatements:table", err)
+			continue
+		}
+		ire := ""
+		for _, id := range ids {
+			if strings.Contains(id, "Injector.IsReturnError(") {
+				ire = id
+			}
+		}
+		bad := ""
+		for _, row := range rows {
+			if row.reached && ire != "" && row.atoms[ire].b {
+				bad = rowString(row, ids)
+			}
+		}
+		c.check(ire != "" && bad == "", rule, "generateAsyncWaitStatements:discarding-form-only-without-error-result", L.pos(r.Pos()),
+			"the form that discards the result of eg.Wait() is emitted only when the injector has no error result", "counterexample: "+bad)
+	}
+	c.floor(rule, "forms of the final Wait", n, 2)
+}
+
+// ruleTemplatesNotPatched: an emitted node is complete when its literal is built. Nothing overwrites a slot of a node that
+// was produced elsewhere (a call result, a parameter, a loaded field) or an element of one of its lists: the template rules
+// read the literals, so a later patch (`decl.Lhs[1] = ast.NewIdent("_")`) would change the output behind their back.
+func ruleTemplatesNotPatched(c *Ctx, rule string) {
+	L := c.L
+	n := 0
+	for _, fn := range pkgFuncs(L, genPkg) {
+		// table exception (one symbol family, reason): the parser rewrites the USER's copied expressions (package
+		// qualifiers are renamed to the allocated import names); those are not generated templates
+		root := fn
+		for root.Parent() != nil {
+			root = root.Parent()
+		}
+		if recvIs(root, "Parser") {
+			continue
+		}
+		for _, b := range fn.Blocks {
+			for _, in := range b.Instrs {
+				st, ok := in.(*ssa.Store)
+				if !ok {
+					continue
+				}
+				switch a := st.Addr.(type) {
+				case *ssa.IndexAddr:
+					// element of a list that was loaded from a go/ast node's field
+					if ld, ok := a.X.(*ssa.UnOp); ok && ld.Op == token.MUL {
+						if fa, ok := ld.X.(*ssa.FieldAddr); ok && strings.HasPrefix(fieldKey(fa), "go/ast.") {
+							n++
+							c.fail(rule, fnName(fn)+":patches-"+fieldKey(fa), L.pos(st.Pos()), "an element of "+fieldKey(fa)+" of an already built node is overwritten", describe(st.Val))
+						}
+					}
+				case *ssa.FieldAddr:
+					k := fieldKey(a)
+					if !strings.HasPrefix(k, "go/ast.") {
+						continue
+					}
+					n++
+					if _, fresh := a.X.(*ssa.Alloc); fresh {
+						continue // slot of the literal being built
+					}
+					if al, ok := resolve(a.X).(*ssa.Alloc); ok && al.Parent() == fn {
+						continue // a local literal completed in place
+					}
+					c.fail(rule, fnName(fn)+":patches-"+k, L.pos(st.Pos()), "the slot "+k+" of a node built elsewhere ("+describe(a.X)+") is overwritten", describe(st.Val))
+				}
+			}
+		}
+	}
+	c.floor(rule, "stores into go/ast node slots", n, 50)
+}
+
+// ruleRequestedTypeIsPrinted (C10.4): the first result of the generated signature is the type the declaration asks for:
+// InjectorReturn.Return is the graph's returnType, which is the directive's Return, whose Type and ASTTypeExpr are the type
+// and the expression of the same type argument of kessoku.Inject. (The returned parameter may provide more types than that -
+// a Bind provides the concrete type first.)
+func ruleRequestedTypeIsPrinted(c *Ctx, rule string) {
+	L := c.L
+	chain := []struct{ fn, field, want, desc string }{
+		{"(*Graph).Build", "internal/kessoku.InjectorReturn.Return", "field:internal/kessoku.Graph.returnType(", "the injector's printed result type is the graph's requested type"},
+		{"NewGraph", "internal/kessoku.Graph.returnType", "field:internal/kessoku.BuildDirective.Return(param:build)", "the graph's requested type is the declaration's"},
+	}
+	for _, ch := range chain {
+		fn := genFn(c, rule, ch.fn)
+		if fn == nil {
+			continue
+		}
+		n := 0
+		for _, st := range storesToField(withClosures(fn), ch.field) {
+			n++
+			s := newSym(L, map[string]bool{})
+			s.maxD = 0
+			t := strings.Join(s.eval(st.Val), "|")
+			c.check(strings.HasPrefix(t, ch.want), rule, shortFn(ch.fn)+":"+ch.field, L.pos(st.Pos()), ch.desc+" (copied, not re-rendered from the supplier's types)", t)
+		}
+		c.floor(rule, "stores of "+ch.field, n, 1)
+	}
+	// the directive's Return: Type and ASTTypeExpr come from the same type-argument expression
+	if pic := genFn(c, rule, "(*Parser).parseInjectCall"); pic != nil {
+		s := newSym(L, map[string]bool{})
+		s.maxD = 0
+		types_ := map[ssa.Value]string{}
+		exprs := map[ssa.Value]string{}
+		for _, st := range storesToField([]*ssa.Function{pic}, "internal/kessoku.Return.Type") {
+			if fa, ok := st.Addr.(*ssa.FieldAddr); ok {
+				types_[fa.X] = strings.Join(s.eval(st.Val), "|")
+			}
+		}
+		for _, st := range storesToField([]*ssa.Function{pic}, "internal/kessoku.Return.ASTTypeExpr") {
+			if fa, ok := st.Addr.(*ssa.FieldAddr); ok {
+				exprs[fa.X] = strings.Join(s.eval(st.Val), "|")
+			}
+		}
+		n := 0
+		for al, t := range types_ {
+			n++
+			e := exprs[al]
+			ok := e != "" && strings.Contains(t, "TypeOf(") && strings.Contains(t, e)
+			c.check(ok, rule, "parseInjectCall:requested-type-and-expression-agree", L.pos(al.Pos()), "the requested type and its printed expression are the type and the syntax of the same type argument", "Type="+t+" ASTTypeExpr="+e)
+		}
+		c.floor(rule, "Return literals in parseInjectCall", n, 2)
+	}
+}
+
+// ruleLoadedPackageReadOnly (C11.8): what go/packages loaded is the declared input. The generator does not edit it (the
+// file list and the syntax list are index-aligned; removing an entry pairs a file name with another file's tree) and does
+// not make its behaviour depend on the package's error list (a stale or truncated earlier output in the directory is a
+// syntax or type error of the package; regeneration must still happen - and heal it).
+func ruleLoadedPackageReadOnly(c *Ctx, rule string) {
+	L := c.L
+	nReads := 0
+	for _, fn := range pkgFuncs(L, genPkg) {
+		for _, b := range fn.Blocks {
+			for _, in := range b.Instrs {
+				switch x := in.(type) {
+				case *ssa.Store:
+					if fa, ok := x.Addr.(*ssa.FieldAddr); ok && strings.HasPrefix(fieldKey(fa), "golang.org/x/tools/go/packages.Package.") {
+						c.fail(rule, fnName(fn)+":edits-"+fieldKey(fa), L.pos(x.Pos()), "the loaded package is modified ("+fieldKey(fa)+"): Syntax and GoFiles are index-aligned and shared by every later walk", describe(x.Val))
+					}
+				case *ssa.FieldAddr:
+					k := fieldKey(x)
+					if strings.HasPrefix(k, "golang.org/x/tools/go/packages.Package.") {
+						nReads++
+						if k == "golang.org/x/tools/go/packages.Package.Errors" || k == "golang.org/x/tools/go/packages.Package.TypeErrors" || k == "golang.org/x/tools/go/packages.Package.IllTyped" {
+							c.fail(rule, fnName(fn)+":reads-"+k, L.pos(x.Pos()), "generation depends on the package's error list: a stale or truncated earlier output (a syntax/type error of the package) would change or block regeneration", k)
+						}
+					}
+				}
+			}
+		}
+	}
+	c.floor(rule, "reads of loaded-package fields", nReads, 5)
+}
+
+// ruleMigrateRendererFidelity: every kind of type the migration prints structurally (a case of TypeConverter.TypeToExpr)
+// carries over what identifies the type - kessoku later matches providers and requirements by types.Type.String(), which
+// for function types includes the parameter names, for arrays the length, for channels the direction, for instantiated
+// generics the type arguments. Kinds without a case use the String() fallback.
+func ruleMigrateRendererFidelity(c *Ctx, rule string) {
+	L := c.L
+	p := L.Pkgs[migPkg]
+	fd, _ := L.funcDecl(migPkg, "TypeConverter", "TypeToExpr")
+	if fd == nil || p == nil {
+		if fn := resolveRole(c, migPkg, "(*TypeConverter).TypeToExpr"); fn != nil {
+			fd = funcDeclOfSSA(L, fn)
+		}
+	}
+	if fd == nil {
+		c.undecided(rule, "TypeToExpr", "converter type printer not found")
+		return
+	}
+	w := analyseWalkerDecl(L, p, fd)
+	table := map[string][]string{}
+	for k, v := range fidelityTable {
+		table[k] = v
+	}
+	table["Signature"] = append(append([]string{}, fidelityTable["Signature"]...), "*.Name|Params.At.Name")
+	n := 0
+	kinds := sortedKeys(table)
+	for _, k := range kinds {
+		if !w.handled[k] {
+			continue
+		}
+		for _, req := range table[k] {
+			n++
+			if k == "Interface" {
+				acc := w.perKind[k]
+				okI := hasAny(acc, "Methods|Method|NumMethods") || (hasAny(acc, "ExplicitMethod|ExplicitMethods|NumExplicitMethods") && hasAny(acc, "EmbeddedType|EmbeddedTypes|Embeddeds|NumEmbeddeds")) || hasAny(acc, "String")
+				c.check(okI, rule, "TypeToExpr:Interface:Methods", L.pos(fd.Pos()), "interface types keep all their methods", fmt.Sprintf("accessors: %v", sortedKeys(acc)))
+				continue
+			}
+			c.check(hasAny(w.perKind[k], req) || hasAny(w.perKind[k], "String"), rule, "TypeToExpr:"+k+":"+strings.Split(req, "|")[0], L.pos(fd.Pos()),
+				fmt.Sprintf("the migration's type printer carries over %s of *types.%s (part of what kessoku's type key prints)", req, k), fmt.Sprintf("accessors used in the case: %v", sortedKeys(w.perKind[k])))
+		}
+	}
+	c.floor(rule, "fidelity obligations of TypeToExpr", n, 6)
+}
+
+// ruleFieldsMergedPerStruct (C13.10): when several wire.FieldsOf of one set are merged, a field is left out only because the
+// SAME struct's merged entry already has it. The test that guards the append of a field name is a membership test in the
+// Fields of the entry it is appended to (or a table whose key includes the struct type).
+func ruleFieldsMergedPerStruct(c *Ctx, rule string) {
+	L := c.L
+	fn := resolveRole(c, migPkg, "(*Transformer).mergeFieldsOf")
+	if fn == nil {
+		c.undecided(rule, "mergeFieldsOf", "function not found")
+		return
+	}
+	c.seen(fnName(fn))
+	n := 0
+	for _, st := range storesToField([]*ssa.Function{fn}, "internal/migrate.WireFieldsOf.Fields") {
+		call, ok := st.Val.(*ssa.Call)
+		if !ok {
+			continue
+		}
+		bi, ok := call.Common().Value.(*ssa.Builtin)
+		if !ok || bi.Name() != "append" {
+			continue
+		}
+		elems, isLit := variadicElems(call.Common().Args[1])
+		if !isLit || len(elems) != 1 {
+			continue // the initial copy of a whole list
+		}
+		n++
+		entry := st.Addr.(*ssa.FieldAddr).X
+		hdr := outermostLoopHeader(st.Block())
+		okAll, why := true, ""
+		guards := 0
+		for _, iff := range controllingIfs(st) {
+			// only tests inside the loop over the fields being merged
+			inner := false
+			for d := st.Block(); d != nil; d = d.Idom() {
+				if d == iff.Block() {
+					inner = true
+				}
+			}
+			if !inner || iff.Block() == hdr {
+				continue
+			}
+			if bo, isB := iff.Cond.(*ssa.BinOp); isB && (bo.Op == token.LSS || bo.Op == token.GTR) {
+				continue // loop condition
+			}
+			if _, isExt := iff.Cond.(*ssa.Extract); isExt {
+				// comma-ok of the per-type lookup / type assertion: fine if not keyed by the field
+				if ex := iff.Cond.(*ssa.Extract); ex != nil {
+					if lk, isLk := ex.Tuple.(*ssa.Lookup); isLk && sameValueOrigin(lk.Index, elems[0]) {
+						okAll, why = false, "the field is looked up in a table keyed by the bare field name (shared by all struct types)"
+					}
+				}
+				continue
+			}
+			switch x := iff.Cond.(type) {
+			case *ssa.Call:
+				if cal := x.Common().StaticCallee(); cal != nil && len(x.Common().Args) == 2 && sameValueOrigin(x.Common().Args[1], elems[0]) {
+					guards++
+					hay := x.Common().Args[0]
+					if ld, ok := hay.(*ssa.UnOp); ok {
+						if fa, ok := ld.X.(*ssa.FieldAddr); ok && fieldKey(fa) == "internal/migrate.WireFieldsOf.Fields" && resolve(fa.X) == resolve(entry) {
+							continue
+						}
+					}
+					okAll, why = false, "membership is tested in "+describe(hay)+", not in the Fields of the entry being extended"
+				}
+			case *ssa.Lookup:
+				if sameValueOrigin(x.Index, elems[0]) {
+					guards++
+					okAll, why = false, "the field is looked up in a table keyed by the bare field name (shared by all struct types)"
+				}
+			case *ssa.UnOp:
+				if lk, ok := x.X.(*ssa.Lookup); ok && sameValueOrigin(lk.Index, elems[0]) {
+					guards++
+					okAll, why = false, "the field is looked up in a table keyed by the bare field name (shared by all struct types)"
+				}
+			}
+		}
+		c.check(okAll, rule, "mergeFieldsOf:duplicate-test-per-struct", L.pos(st.Pos()), "a merged field is dropped only when the same struct's entry already lists it", fmt.Sprintf("%d membership guard(s); %s", guards, why))
+	}
+	c.floor(rule, "single-field appends in mergeFieldsOf", n, 1)
+}
+
+// rulePackageMismatchRefused (C14): results from different packages are never merged into one file: the mismatch refusal
+// depends on the package comparison alone, for every result (it does not hide behind "the result declares a set").
+func rulePackageMismatchRefused(c *Ctx, rule string) {
+	L := c.L
+	mr := resolveRole(c, migPkg, "(*Migrator).mergeResults")
+	if mr == nil {
+		c.undecided(rule, "mergeResults", "function not found")
+		return
+	}
+	n := 0
+	for _, st := range storesToField([]*ssa.Function{mr}, "internal/migrate.MergeError.Kind") {
+		s := newSym(L, map[string]bool{})
+		s.maxD = 0
+		k := strings.Join(s.eval(st.Val), "|")
+		if !strings.Contains(k, "package") && !strings.Contains(strings.ToLower(k), "mismatch") {
+			// identify by the constant's name through the types info instead of its value
+			if cst, ok := st.Val.(*ssa.Const); !ok || cst.Value == nil {
+				continue
+			}
+		}
+		if !isPackageMismatchKind(L, st.Val) {
+			continue
+		}
+		n++
+		okAll, sawCmp := true, false
+		var conds []string
+		for _, iff := range controllingIfs(st) {
+			if outermostLoopHeader(iff.Block()) == nil && !strings.Contains(iff.Block().Comment, "loop") {
+				continue // before the loop (e.g. len(results) == 0)
+			}
+			t := strings.Join(s.eval(iff.Cond), "|")
+			c.Notes = append(c.Notes, "mergeResults mismatch guard: "+t)
+			switch {
+			case strings.Contains(t, "MigrationResult.Package"):
+				sawCmp = true
+			case strings.HasPrefix(t, "bin<(") || strings.HasPrefix(t, "bin>(") || strings.Contains(t, "next#") || strings.HasPrefix(t, "extract#0(next"):
+				// loop conditions
+			default:
+				okAll = false
+				conds = append(conds, t)
+			}
+		}
+		c.check(okAll && sawCmp, rule, "mergeResults:package-mismatch-refused-for-every-result", L.pos(st.Pos()),
+			"a result from another package is refused whatever it declares (the refusal is guarded by the package comparison only)", fmt.Sprintf("package comparison seen=%v; further conditions: %s", sawCmp, strings.Join(conds, " ; ")))
+	}
+	c.floor(rule, "package-mismatch refusals in mergeResults", n, 1)
+}
+
+func isPackageMismatchKind(L *Loaded, v ssa.Value) bool {
+	cst, ok := v.(*ssa.Const)
+	if !ok || cst.Value == nil {
+		return false
+	}
+	p := L.Pkgs[migPkg]
+	if p == nil {
+		return false
+	}
+	o := p.Types.Scope().Lookup("MergeErrorPackageMismatch")
+	if o == nil {
+		return false
+	}
+	kc, ok := o.(*types.Const)
+	return ok && kc.Val().ExactString() == cst.Value.ExactString() && types.Identical(kc.Type(), cst.Type())
+}
+
+// ruleInspectVisitsEverything: the import collector of the migration walks the whole copied expression: its ast.Inspect
+// callback never prunes (a `return false` would leave package references in the skipped subtree unresolved and unimported).
+func ruleInspectVisitsEverything(c *Ctx, rule string) {
+	L := c.L
+	fn := resolveRole(c, migPkg, "(*TypeConverter).CollectExprImports")
+	if fn == nil {
+		c.undecided(rule, "CollectExprImports", "function not found")
+		return
+	}
+	c.seen(fnName(fn))
+	n := 0
+	for _, cs := range callsIn(fn) {
+		if cs.callee != "go/ast.Inspect" {
+			continue
+		}
+		var cb *ssa.Function
+		switch f := resolve(cs.arg(1)).(type) {
+		case *ssa.MakeClosure:
+			cb = f.Fn.(*ssa.Function)
+		case *ssa.Function:
+			cb = f
+		}
+		if cb == nil {
+			c.undecided(rule, "CollectExprImports:callback", "the Inspect callback is not a function literal")
+			continue
+		}
+		n++
+		bad := ""
+		for _, r := range returnsOf(cb) {
+			k, isC := r.Results[0].(*ssa.Const)
+			if !isC || k.Value == nil || k.Value.String() != "true" {
+				bad = "returns " + describe(r.Results[0]) + " at " + L.pos(r.Pos())
+			}
+		}
+		c.check(bad == "", rule, "CollectExprImports:walks-whole-expression", L.pos(cs.instr.Pos()), "every sub-expression is visited (the callback always returns true)", bad)
+	}
+	c.floor(rule, "ast.Inspect walks in CollectExprImports", n, 1)
+}
+
+// ruleInstallWalksBeforeSuccess: Install reports success only after it walked the embedded tree (checked call).
+func ruleInstallWalksBeforeSuccess(c *Ctx, rule string, install *ssa.Function) {
+	L := c.L
+	if install == nil {
+		c.undecided(rule, "Install", "function not found")
+		return
+	}
+	walks := findCalls(install, "io/fs.WalkDir")
+	n := 0
+	for _, r := range returnsOf(install) {
+		if !returnsNilError(r) {
+			continue
+		}
+		n++
+		ok := false
+		for _, w := range walks {
+			if w.value() != nil {
+				if o, _ := checkedBefore(w.value(), r); o {
+					ok = true
+				}
+			}
+		}
+		c.check(ok, rule, "Install:success-only-after-the-walk", L.pos(r.Pos()), "Install reports success only after the whole embedded tree was walked without error (no shortcut that trusts what is already there)", fmt.Sprintf("%d WalkDir call(s)", len(walks)))
+	}
+	c.floor(rule, "success returns of Install", n, 1)
+}
+
+// ruleCallerLaneChoice: which pool runs on the caller's goroutine is decided by two facts only - the first ready pool whose
+// head is synchronous, else the first ready pool. (Every other ready pool is a goroutine; pools that become ready later are
+// emitted in pool order.) The choice matters: a failing provider on the caller returns without cancelling the group (recorded
+// finding C08.1), and the caller's waits decide deadlock-freedom of the lanes; another criterion moves inputs between those
+// cases and has to be argued anew.
+func ruleCallerLaneChoice(c *Ctx, rule string) {
+	L := c.L
+	bs := genFn(c, rule, "(*Graph).buildStmts")
+	bps := resolveRole(c, genPkg, "(*Graph).buildPoolStmtsSimple")
+	if bs == nil || bps == nil {
+		return
+	}
+	var classify func(v ssa.Value, seen map[ssa.Value]bool) string
+	classify = func(v ssa.Value, seen map[ssa.Value]bool) string {
+		if seen[v] {
+			return "ok"
+		}
+		seen[v] = true
+		switch x := v.(type) {
+		case *ssa.Const:
+			if n, ok := constInt(x); ok && n == -1 {
+				return "ok" // "none found"
+			}
+			return "constant " + x.String()
+		case *ssa.UnOp:
+			if ia, ok := x.X.(*ssa.IndexAddr); ok && x.Op == token.MUL {
+				if n, isC := constInt(ia.Index); isC {
+					if n == 0 {
+						return "first" // first ready pool
+					}
+					return fmt.Sprintf("ready pool #%d", n)
+				}
+				return "elem" // element of the ready list visited by a scan
+			}
+		case *ssa.BinOp:
+			if x.Op == token.ADD {
+				if _, isPhi := x.X.(*ssa.Phi); isPhi {
+					return "loopvar"
+				}
+			}
+		case *ssa.Phi:
+			kinds := map[string]bool{}
+			for _, e := range x.Edges {
+				kinds[classify(e, seen)] = true
+			}
+			delete(kinds, "ok")
+			if len(kinds) == 1 {
+				for k := range kinds {
+					return k
+				}
+			}
+			if len(kinds) == 0 {
+				return "ok"
+			}
+			return "mixed:" + strings.Join(sortedKeys(kinds), "+")
+		}
+		return "computed: " + describe(v)
+	}
+	n := 0
+	for _, cs := range callsIn(bs) {
+		if cs.common.StaticCallee() != bps {
+			continue
+		}
+		n++
+		kind := "not an element of pools"
+		if ld, ok := cs.arg(1).(*ssa.UnOp); ok && ld.Op == token.MUL {
+			if ia, ok := ld.X.(*ssa.IndexAddr); ok {
+				kind = classify(ia.Index, map[ssa.Value]bool{})
+			}
+		}
+		ok := kind == "first" || kind == "elem" || kind == "loopvar" || kind == "ok"
+		c.check(ok, rule, fnName(bs)+":which-pool-is-built-where", L.pos(cs.instr.Pos()),
+			"the pool handed to buildPoolStmtsSimple is the first ready pool with a synchronous head, the first ready pool, or the pool the walk is at (no other preference, e.g. for the pool of the result)", "pool index is: "+kind)
+	}
+	c.floor(rule, "buildPoolStmtsSimple call sites in buildStmts", n, 3)
 }
